@@ -387,8 +387,13 @@ class RawAlgorithmsMixIn:
 
         z_data = numpy.empty_like(out)
         (D,P) = z_data.shape[:2]
+        # the reciprocal in the precision of the result: 1/y_0 of a single precision divisor is a single
+        # precision number, which would leave a double precision quotient with seven digits
+        y0 = y_data[0,:,...]
+        if z_data.dtype.kind in 'fc' and y0.dtype != z_data.dtype and numpy.can_cast(y0.dtype, z_data.dtype):
+            y0 = y0.astype(z_data.dtype)
         for d in range(D):
-            z_data[d,:,...] = 1./ y_data[0,:,...] * ( x_data[d,:,...] - numpy.sum(z_data[:d,:,...] * y_data[d:0:-1,:,...], axis=0))
+            z_data[d,:,...] = 1./ y0 * ( x_data[d,:,...] - numpy.sum(z_data[:d,:,...] * y_data[d:0:-1,:,...], axis=0))
 
         out[...] = z_data[...]
         return out
